@@ -5,74 +5,94 @@
    whole rendered document by the CommonMark converter (goldmark), st = "ok" when the template
    rendered and the fixed text was found around the value.
 
-   Verdict predicate RecOk (property level):
+   Verdict (property level), Verdict(r) in {"ok", "bad", "cand"}; RecOk(r) == Verdict(r) # "bad":
      code placements       (b)  Confined(out . rest of the template line)            - decides directly
      paragraph placements  (a)  RoundTrip(s, out)                                     - decides directly
                            and  Complete(out, line-start?)  OR  GmClean(pl, s, html)
    Clause (c) Complete is only a SUFFICIENT condition for "introduces no element": a record that
-   satisfies it passes WITHOUT html being read; a record that fails it is a candidate, and is a
+   satisfies it passes WITHOUT html being read; a record that fails it is a CANDIDATE, and is a
    violation only if the converter's HTML for that very output has an element the template did not
    make, or text other than template text + the string (GmClean false).  This is the one family whose
    last word on a candidate is an external parser (DESIGN 7/C26, section 8): CommonMark's inline and
-   block algorithms are not specified here.  TLC evaluates the disjunction left to right, so html is
-   consulted exactly for the candidates that passed (a) (counted in diag.ndjson as gm_consulted).
+   block algorithms are not specified here.
+
+   html is consulted for candidates only, and the pipeline makes that literal: in the first pass the
+   check strips the html field from every record (which also spares TLC the parsing of 4/5 of the
+   bytes); a candidate whose record has no html gets the verdict "cand" and its index is written to
+   cand.ndjson; the check then runs this same specification over the candidates' complete records,
+   where GmClean decides.  A record that carries html is decided in one pass (replays, self-test).
 
    Not judged (counted, never failed): records whose st # "ok"; records whose out has a well-formed
    named character reference outside the reference's table (ref_undefined); unknown placements.
 
-   With Audit = TRUE (development aid, diagnostic only, never a verdict) the walk also counts the
-   records that satisfy (a) and (c) and whose html is nevertheless not clean ("audit_disputed": the
-   sufficient condition would be wrong for that converter - a to-do for the spec). *)
+   With Audit = TRUE (development aid, diagnostic only, never a verdict; needs html in every record)
+   the walk also counts the records that satisfy (a) and (c) and whose html is nevertheless not clean
+   ("audit_disputed": the sufficient condition would be wrong for that converter - a to-do for the
+   spec), and the code-block records that satisfy (b) while goldmark ended the block early. *)
 EXTENDS MdEscape, TLC, Json
 CONSTANT Audit
 
 Rendered(r) == r.st = "ok" /\ r.pl \in (ParaPl \cup CodePl)
 Undef(r) == Rendered(r) /\ RefUndefined(r.out)
 Judged(r) == Rendered(r) /\ ~Undef(r)
+HasHtml(r) == "html" \in DOMAIN r
 \* rt = RoundTrip(r.s, r.out), cf = CFail(r.out, line-start?) - passed in so that the walk computes them once
-ParaOk(r, rt, cf) == rt /\ (cf = "" \/ GmClean(r.pl, r.s, r.html))
-RecOk(r) ==
-  ~Judged(r) \/
-  IF r.pl \in CodePl THEN Confined(r.out \o CodeRest)
-  ELSE ParaOk(r, RoundTrip(r.s, r.out), CFail(r.out, Frame(r.pl).ls))
+ParaVerdict(r, rt, cf) == IF ~rt THEN "bad" ELSE IF cf = "" THEN "ok"
+                          ELSE IF ~HasHtml(r) THEN "cand"
+                          ELSE IF GmClean(r.pl, r.s, r.html) THEN "ok" ELSE "bad"
+Verdict(r) ==
+  IF ~Judged(r) THEN "ok"
+  ELSE IF r.pl \in CodePl THEN (IF Confined(r.out \o CodeRest) THEN "ok" ELSE "bad")
+  ELSE ParaVerdict(r, RoundTrip(r.s, r.out), CFail(r.out, Frame(r.pl).ls))
+RecOk(r) == Verdict(r) # "bad"
 
 \* Signature: family, failing clause, and the root-cause-identifying fields:
-\*   codeblock: whether every leaking line starts after a lone CR of the value ("lone-cr") or not ("line")
+\*   codeblock: "lone-cr" every leaking line (CommonMark line endings) starts after a lone CR of the value;
+\*              "lf-cr" confined under CommonMark line endings, and under LF-only line endings every leaking
+\*              line starts with a CR; "line" anything else
 \*   roundtrip: the placement and the input itself (no cause is known on the unchanged tree)
-\*   inert:     the completeness clause that made it a candidate and the first element the converter
-\*              produced that the template did not make (<<>> when only the text differs)
+\*   inert:     the completeness clause that made it a candidate ("indent" whenever that clause fails too
+\*              and the element is an indented code block) and the first element the converter produced
+\*              that the template did not make ("" when only the text differs)
 Sig(r) ==
   IF r.pl \in CodePl
   THEN [fam |-> "mdescape", clause |-> "codeblock",
-        cause |-> IF LeaksOnlyAfterCR(r.out \o CodeRest) THEN "lone-cr" ELSE "line", pl |-> r.pl, tag |-> <<>>, s |-> <<>>]
+        cause |-> LET t == r.out \o CodeRest IN
+                  IF ~ConfinedC(t, TRUE) /\ LeaksOnlyAfterCR(t) THEN "lone-cr"
+                  ELSE IF ConfinedC(t, TRUE) /\ LeaksOnlyAtCR(t) THEN "lf-cr" ELSE "line",
+        pl |-> r.pl, tag |-> "", s |-> <<>>]
   ELSE IF ~RoundTrip(r.s, r.out)
-  THEN [fam |-> "mdescape", clause |-> "roundtrip", cause |-> "", pl |-> r.pl, tag |-> <<>>, s |-> r.s]
-  ELSE [fam |-> "mdescape", clause |-> "inert", cause |-> CFail(r.out, Frame(r.pl).ls), pl |-> r.pl,
-        tag |-> FirstForeign(r.pl, r.html), s |-> <<>>]
+  THEN [fam |-> "mdescape", clause |-> "roundtrip", cause |-> "", pl |-> r.pl, tag |-> "", s |-> r.s]
+  ELSE LET tg == TagName(FirstForeign(r.pl, r.html)) IN
+       [fam |-> "mdescape", clause |-> "inert",
+        cause |-> IF tg = "pre" /\ IndentFails(r.out, Frame(r.pl).ls) THEN "indent" ELSE CFail(r.out, Frame(r.pl).ls),
+        pl |-> r.pl, tag |-> tg, s |-> <<>>]
 
 \* da / df below are diagnostic only: does the real output equal the transcription's output (as found / repaired)?
 
 (* ---- record walk (the variant of spec/escapers/Trace_Escapers.tla of the skeleton of
         spec/lib2/Trace_HTMLEscape.tla: each record judged once, in the step that consumes it; one
         representative index per distinct signature, at most 400; counters go to diag.ndjson) ---- *)
-VARIABLES l, nbad, ncand, nundef, nskip, nda, ndf, naud, reps, seen
+VARIABLES l, nbad, ncand, nundef, nskip, nda, ndf, naud, reps, seen, cands, auds
 Obs == ndJsonDeserialize("obs.ndjson")
 Init == l = 1 /\ nbad = 0 /\ ncand = 0 /\ nundef = 0 /\ nskip = 0 /\ nda = 0 /\ ndf = 0 /\ naud = 0 /\ reps = <<>> /\ seen = {}
+        /\ cands = <<>> /\ auds = <<>>
 B(x) == IF x THEN 1 ELSE 0
-Zero == [bad |-> FALSE, cand |-> FALSE, da |-> FALSE, df |-> FALSE, aud |-> FALSE]
-JudgePara(r, rt, cf) == [bad |-> ~ParaOk(r, rt, cf), cand |-> rt /\ cf # "",
+Zero == [v |-> "ok", cand |-> FALSE, da |-> FALSE, df |-> FALSE, aud |-> FALSE]
+JudgePara(r, rt, cf) == [v |-> ParaVerdict(r, rt, cf), cand |-> rt /\ cf # "",
                          da |-> r.out # MdEsc(r.s, FALSE), df |-> r.out # MdEsc(r.s, TRUE),
-                         aud |-> Audit /\ rt /\ cf = "" /\ ~GmClean(r.pl, r.s, r.html)]
+                         aud |-> Audit /\ HasHtml(r) /\ rt /\ cf = "" /\ ~GmClean(r.pl, r.s, r.html)]
 Judge(r) == IF ~Judged(r) THEN Zero
             ELSE IF r.pl \in CodePl
-            THEN [Zero EXCEPT !.bad = ~Confined(r.out \o CodeRest),
+            THEN [Zero EXCEPT !.v = IF Confined(r.out \o CodeRest) THEN "ok" ELSE "bad",
+                              !.aud = Audit /\ HasHtml(r) /\ Confined(r.out \o CodeRest) /\ ~GmCodeInside(r.html),
                               !.da = r.out # CodeEsc(r.s, r.pl = "codesp", FALSE),
                               !.df = r.out # CodeEsc(r.s, r.pl = "codesp", TRUE)]
             ELSE JudgePara(r, RoundTrip(r.s, r.out), CFail(r.out, Frame(r.pl).ls))
 Next == /\ l <= Len(Obs) /\ l' = l + 1
         /\ \E v \in {Judge(Obs[l])} :
-           \E new \in {v.bad /\ Len(reps) < 400 /\ Sig(Obs[l]) \notin seen} :
-              /\ nbad' = nbad + B(v.bad)
+           \E new \in {v.v = "bad" /\ Len(reps) < 400 /\ Sig(Obs[l]) \notin seen} :
+              /\ nbad' = nbad + B(v.v = "bad")
               /\ ncand' = ncand + B(v.cand)
               /\ nundef' = nundef + B(Undef(Obs[l]))
               /\ nskip' = nskip + B(~Rendered(Obs[l]))
@@ -81,10 +101,15 @@ Next == /\ l <= Len(Obs) /\ l' = l + 1
               /\ naud' = naud + B(v.aud)
               /\ reps' = IF new THEN Append(reps, l) ELSE reps
               /\ seen' = IF new THEN seen \cup {Sig(Obs[l])} ELSE seen
+              /\ cands' = IF v.v = "cand" THEN Append(cands, l) ELSE cands
+              /\ auds' = IF v.aud /\ Len(auds) < 50 THEN Append(auds, l) ELSE auds
 Done == l = Len(Obs) + 1 =>
-          /\ ndJsonSerialize("diag.ndjson", <<[records |-> Len(Obs), nbad |-> nbad, gm_consulted |-> ncand,
+          /\ ndJsonSerialize("diag.ndjson", <<[records |-> Len(Obs), nbad |-> nbad, candidates |-> ncand,
+                                               undecided |-> Len(cands),
                                                ref_undefined |-> nundef, not_rendered |-> nskip,
                                                drift_asfound |-> nda, drift_fixed |-> ndf, audit_disputed |-> naud]>>)
+          /\ ndJsonSerialize("cand.ndjson", IF Len(cands) = 0 THEN <<>> ELSE [j \in 1..Len(cands) |-> [k |-> cands[j]]])
+          /\ ndJsonSerialize("aud.ndjson", IF Len(auds) = 0 THEN <<>> ELSE [j \in 1..Len(auds) |-> [k |-> auds[j]]])
           /\ ndJsonSerialize("bad.ndjson",
                IF Len(reps) = 0 THEN <<>> ELSE
                [j \in 1..Len(reps) |-> [k |-> reps[j], id |-> Obs[reps[j]].id, sig |-> Sig(Obs[reps[j]]), nbad |-> nbad]])
